@@ -188,9 +188,10 @@ def gen_restrict_case(rng, tier):
   if rng.random() < 0.25:
     free = unconstrained_indices(poly)
     if free:
-      k = rng.randint(1, min(2, len(free)))
+      k = rng.randint(1, min(3, len(free)))
+      # the dict handed to FixedIndicesOnContinuousDomain is filled in this order (ascending, descending or arbitrary)
       case["fixed"] = [[i, rng.choice([poly["box"][i][0], poly["box"][i][1], poly["box"][i][0] + rng.random() * (poly["box"][i][1] - poly["box"][i][0])])]
-                       for i in sorted(rng.sample(free, k))]
+                       for i in rng.sample(free, k)]
   return case
 
 
@@ -243,9 +244,10 @@ def gen_quasi_case(rng, tier):
     free = unconstrained_indices(poly)
     free = [i for i in free]
     if free:
-      i = rng.choice(free)
-      lo, hi = case["box"][i]
-      case["fixed"] = [[i, rng.choice([lo, hi, lo + rng.random() * (hi - lo)])]]
+      case["fixed"] = []
+      for i in rng.sample(free, rng.randint(1, min(2, len(free)))):
+        lo, hi = case["box"][i]
+        case["fixed"].append([i, rng.choice([lo, hi, lo + rng.random() * (hi - lo)])])
   return case
 
 
